@@ -351,9 +351,21 @@ def evalMods (cfg : Cfg) (m : MapSt) : Mods → List (E × Int × E × Bool)
       (a.1, a.2, eval cfg m v, be) :: evalMods cfg m rest
 end
 
-/-- `m(x)` -/
+/-- an expression as amoco's constructors deliver it: `composer`, slicing and `+` fold constants when the
+    expression is *built* (`composer([cst, cst])` is a `cst`, `cst[8:24]` is a `cst`, `cst + 8` is a `cst`),
+    before any map sees it.  Mods are left as they are (they were built by the map). -/
+def foldE : E → E
+  | .cst v s => .cst v s
+  | .reg n s => .reg n s
+  | .slc x p s => mkSlice (foldE x) p s
+  | .cat lo hi => mkCat (foldE lo) (foldE hi)
+  | .addc x c => mkAddc (foldE x) c
+  | .op o l r s => .op o (foldE l) (foldE r) s
+  | .load b d s be ms => .load (foldE b) d s be ms
+
+/-- `m(x)`: on an untouched map `__call__` returns its argument as it is — as built by the constructors -/
 def MapSt.call (cfg : Cfg) (m : MapSt) (x : E) : E :=
-  if m.entries.isEmpty && m.memEmpty then x else eval cfg m x
+  if m.entries.isEmpty && m.memEmpty then foldE x else eval cfg m x
 
 /-- `m2.rcompose(m1)` = `m1 >> m2`: x ↦ m2(m1(x)) -/
 def rcompose (cfg : Cfg) (m2 m1 : MapSt) : MapSt :=
